@@ -28,12 +28,13 @@ structure QueueInv (rid : Int → String → Id) (s : State) : Prop where
   entry : ∀ e ∈ s.queue, e.1.2 = rid e.2.height e.2.consumer ∧ 0 ≤ e.2.height ∧ e.2.height ≤ s.height ∧
             s.height ≤ (e.1.1 : Int) ∧ (e.1.1 : Int) < two63
 
-/-- the operations of a live chain: block heights advance by one, stay below 2^63, and a
-    request's due height `height + interval` fits `int64` (the class excluded by F-rnd-2) -/
+/-- the operations of a live chain: block heights advance by one and stay below 2^63; messages
+    and callbacks are unconstrained (every block interval is allowed: the handler rejects the
+    ones whose due height does not fit `int64`) -/
 def OpValid (s : State) : Op → Prop
   | .beginBlock h _ _ _ => h = s.height + 1 ∧ h < two63
-  | .request _ _ n _ _ => s.height + (n : Int) < two63
-  | .requestOracle _ _ n _ _ _ _ => s.height + (n : Int) < two63
+  | .request _ _ _ _ _ => True
+  | .requestOracle _ _ _ _ _ _ _ => True
   | .cbResponse _ _ _ => True
   | .cbState _ => True
 
@@ -56,10 +57,10 @@ def sameObs (pre post : State) : Bool :=
   sameMap pre.queue post.queue (fun _ => false) && sameMap pre.randoms post.randoms (fun _ => false) &&
   sameMap pre.oracleReqs post.oracleReqs (fun _ => false) && pre.height == post.height
 
-/-- the due height of a queue entry does not fit `int64` / wrapped below the request height:
-    the class of F-rnd-2 -/
-def overflowEntry (e : (Nat × Id) × Request) : Bool :=
-  decide ((e.1.1 : Int) ≥ two63) || decide ((e.1.1 : Int) < e.2.height)
+/-- an entry nobody will ever drain: queued under a height below the current one, or under a
+    key that is not an `int64` height at all -/
+def staleEntry (height : Int) (e : (Nat × Id) × Request) : Bool :=
+  decide ((e.1.1 : Int) < height) || decide ((e.1.1 : Int) ≥ two63)
 
 structure Fail where
   clause : String
@@ -76,6 +77,7 @@ def check (pre : State) (op : Op) (word : String) (post : State) : List Fail :=
       let key := (u64 (pre.height + n), requestId pre.height c)
       let want : Request := { height := pre.height, consumer := c, txHash := txHashOf tx, oracle := false,
                               feeCap := "", ctxId := "" }
+      failIf (decide (pre.height + (n : Int) ≥ two63)) "overflowing-interval-accepted" ++
       failIf (!(AMap.get? post.queue key == some want)) "request-not-enqueued-at-h+n" ++
       failIf (!(sameMap pre.queue post.queue (· == key) && sameMap pre.randoms post.randoms (fun _ => false) &&
                 sameMap pre.oracleReqs post.oracleReqs (fun _ => false) && pre.height == post.height))
@@ -85,6 +87,7 @@ def check (pre : State) (op : Op) (word : String) (post : State) : List Fail :=
   | .requestOracle c _ n tx fee _ _ =>
     if word == "ok" then
       let key := (u64 (pre.height + n), requestId pre.height c)
+      failIf (decide (pre.height + (n : Int) ≥ two63)) "overflowing-interval-accepted" ++
       failIf (!(match AMap.get? post.queue key with
                 | some r => r.height == pre.height && r.consumer == c && r.txHash == txHashOf tx && r.oracle &&
                             r.feeCap == fee && r.ctxId != ""
@@ -118,8 +121,7 @@ def check (pre : State) (op : Op) (word : String) (post : State) : List Fail :=
                   (fun c => dueOracle.any fun e => e.2.ctxId == c && started.contains c))) "oracle-frame" ++
       failIf (post.height != h) "height" ++
       -- on time: nothing that was due at or before h-1 is still pending
-      failIf (post.queue.any fun e => !(overflowEntry e) && decide ((e.1.1 : Int) < h)) "stale-entry" ++
-      failIf (post.queue.any fun e => overflowEntry e) "stale-entry" (some "F-rnd-2")
+      failIf (post.queue.any (staleEntry h)) "stale-entry"
     else
       [{ clause := "begin-block-panic",
          cls := if t == 0 && !dueNormal.isEmpty then some "F-rnd-1" else none }]
@@ -165,8 +167,7 @@ def check (pre : State) (op : Op) (word : String) (post : State) : List Fail :=
 def hygiene (post : State) : List Fail :=
   failIf (post.queue.any fun e => e.1.2 != requestId e.2.height e.2.consumer) "queue-entry-id-mismatch" ++
   failIf (post.queue.any fun e => decide (e.2.height > post.height)) "queue-entry-from-the-future" ++
-  failIf (post.queue.any fun e => !(overflowEntry e) && decide ((e.1.1 : Int) < post.height)) "stale-entry" ++
-  failIf (post.queue.any fun e => overflowEntry e) "stale-entry" (some "F-rnd-2")
+  failIf (post.queue.any (staleEntry post.height)) "stale-entry"
 
 def checkC13 (pre : State) (op : Op) (word : String) (post : State) : List Fail :=
   match op with
